@@ -242,6 +242,7 @@ class AffEval:
         self.nattr = nattr  # self.<nattr> is the boundary
         self.stop = set(stop)  # locals kept symbolic
         self.opaque: dict[str, ast.AST] = {}
+        self.opaque_at: dict[str, Node | None] = {}  # where the opaque sub-expression is evaluated (None: at more than one node)
 
     # -- names ---------------------------------------------------------
     def single_def(self, name: str, node: Node):
@@ -402,6 +403,7 @@ class AffEval:
         if isinstance(e, (ast.Call, ast.Attribute, ast.Subscript)):
             key = "op:" + norm(e)
             self.opaque[key] = e
+            self.opaque_at[key] = node if self.opaque_at.get(key, node) is node else None
             return Aff({key: 1})
         raise NotAffine(f"`{norm(e)}`")
 
